@@ -161,6 +161,31 @@ func (x *Exec) fresh(prefix string) string {
 	return fmt.Sprintf("%s%d", prefix, s.streams[prefix])
 }
 
+// contentName names a derived (deterministic) quantity after the content of the polynomials it is computed from, so
+// that computing it twice from equal inputs yields the same atoms.
+func (x *Exec) contentName(prefix string, extra string, limbs []Slice, moduli []uint64) string {
+	var sb strings.Builder
+	sb.WriteString(extra)
+	for k, l := range limbs {
+		if k >= len(moduli) {
+			break
+		}
+		for n := 0; n < l.Len; n++ {
+			sb.WriteString(x.polyString(x.feArg(l.Obj.Cells[l.Off+n], moduli[k]).P, 1<<30))
+			sb.WriteByte(';')
+		}
+		sb.WriteByte('|')
+	}
+	st := x.feS()
+	key := prefix + ":" + sb.String()
+	id, ok := st.decompIDs[key]
+	if !ok {
+		id = len(st.decompIDs) + 1
+		st.decompIDs[key] = id
+	}
+	return fmt.Sprintf("%s%d", prefix, id)
+}
+
 // classOfSlice: dominant atom class of the field elements in a slice (defaults to rounding).
 func (x *Exec) classOfSlice(s Slice) int {
 	st := x.feS()
@@ -433,7 +458,8 @@ func init() {
 		_ = subT
 		riQ := x.ringInfoAll(rq, rqt, qs.Len-1)
 		riP := x.ringInfoAll(rp, rpt, levelP)
-		name := x.fresh("rnd")
+		p1P := x.polyLimbs(args[4])
+		name := x.contentName("rnd", fmt.Sprintf("%d/%d", levelQ, levelP), append(append([]Slice(nil), p1Q[:levelQ+1]...), p1P[:levelP+1]...), append(append([]uint64(nil), riQ.moduli[:levelQ+1]...), riP.moduli[:levelP+1]...))
 		for k := 0; k <= levelQ; k++ {
 			q := riQ.moduli[k]
 			pinv := x.prodInv(riP.moduli[:levelP+1], q)
@@ -483,7 +509,7 @@ func init() {
 			if nb > level {
 				x.goPanic("runtime error: index out of range (rescaling below level 0)")
 			}
-			name := x.fresh("rsc")
+			name := x.contentName("rsc", fmt.Sprintf("%d/%d", level, nb), p0[:level+1], ri.moduli[:level+1])
 			for k := 0; k <= level-nb; k++ {
 				q := ri.moduli[k]
 				dinv := x.prodInv(ri.moduli[level-nb+1:level+1], q)
@@ -517,7 +543,23 @@ func init() {
 		rt := fn.Signature.Recv().Type()
 		rq, rqt := x.fieldOf(args[0], rt, "ringQ")
 		riQ := x.ringInfoAll(rq, rqt, levelQ)
-		name := x.fresh("dig")
+		// the digit is a deterministic function of the limbs of its group: name it after their content, so that
+		// decomposing the same polynomial twice yields the same digits
+		var sb strings.Builder
+		fmt.Fprintf(&sb, "%d/%d/%d/%d|", levelQ, levelP, nbPi, i)
+		for k := i * nbPi; k < (i+1)*nbPi && k <= levelQ; k++ {
+			for n := 0; n < p0Q[k].Len; n++ {
+				sb.WriteString(x.polyString(x.feArg(p0Q[k].Obj.Cells[p0Q[k].Off+n], riQ.moduli[k]).P, 1<<30))
+				sb.WriteByte(';')
+			}
+		}
+		st := x.feS()
+		id, ok := st.decompIDs["rns:"+sb.String()]
+		if !ok {
+			id = len(st.decompIDs) + 1
+			st.decompIDs["rns:"+sb.String()] = id
+		}
+		name := fmt.Sprintf("dig%d", id)
 		for k := 0; k <= levelQ; k++ {
 			own := k >= i*nbPi && k < (i+1)*nbPi
 			for n := 0; n < p1Q[k].Len; n++ {
